@@ -29,9 +29,9 @@ Lemma is_sighash_all f : is_sighash f = true -> In f all_flags.
 Proof.
   unfold is_sighash, sighash_of_u8.
   assert (T : Gen.Sighash_gen.sighash_table =
-              [("FORKID", 64); ("ALL", 1); ("NONE", 2); ("SINGLE", 3); ("ANYONECANPAY", 128); ("InputsOutputs", 65);
-               ("Inputs", 66); ("InputsOutput", 67); ("InputOutputs", 193); ("Input", 194); ("InputOutput", 195);
-               ("Legacy_InputOutputs", 129); ("Legacy_Input", 130); ("Legacy_InputOutput", 131)]%string%N) by reflexivity.
+              [("ALL", 1); ("NONE", 2); ("SINGLE", 3); ("FORKID", 64); ("InputsOutputs", 65); ("Inputs", 66);
+               ("InputsOutput", 67); ("ANYONECANPAY", 128); ("Legacy_InputOutputs", 129); ("Legacy_Input", 130);
+               ("Legacy_InputOutput", 131); ("InputOutputs", 193); ("Input", 194); ("InputOutput", 195)]%string%N) by reflexivity.
   rewrite T. cbn [lookup_name].
   intros Hl.
   repeat match type of Hl with
